@@ -3,6 +3,7 @@
 package firewall
 
 import (
+	"math/big"
 	"errors"
 	"fmt"
 	"strings"
@@ -35,9 +36,23 @@ func c21Keys(n int) []*operator.PublicKey {
 			panic(err)
 		}
 		keys[i] = pk
+		// every odd peer is the negation of the preceding one: a different,
+		// valid operator key that shares its X coordinate (hostile input for
+		// anything that identifies a peer by less than the whole key)
+		if i%2 == 1 {
+			prev := keys[i-1]
+			keys[i] = &operator.PublicKey{
+				Curve: prev.Curve,
+				X:     new(big.Int).Set(prev.X),
+				Y:     new(big.Int).Sub(c21FieldP, prev.Y),
+			}
+		}
 	}
 	return keys
 }
+
+// the secp256k1 field prime
+var c21FieldP, _ = new(big.Int).SetString("fffffffffffffffffffffffffffffffffffffffffffffffffffffffefffffc2f", 16)
 
 // c21Call is one IsRecognized call received by a stub.
 type c21Call struct {
